@@ -179,7 +179,19 @@ impl Vm {
                 }
                 // TODO: compute gas_spent is not inferrable above
                 Some(ProgramControlFlow::ComputeResult((pc, gas, halt))) => {
-                    gas_spent += gas;
+                    // The gas spent by compute children counts towards the total limit.
+                    gas_spent = gas_spent
+                        .checked_add(gas)
+                        .filter(|&spent| spent <= gas_limit.total)
+                        .ok_or(ExecError(
+                            self.pc,
+                            OutOfGasError {
+                                spent: gas_spent,
+                                op_gas: gas,
+                                limit: gas_limit.total,
+                            }
+                            .into(),
+                        ))?;
                     self.pc = pc;
                     self.halt |= halt;
                     if self.halt {
